@@ -8,3 +8,4 @@ import XProofs.Properties.C03
 #print axioms Properties.C03.C03_no_stale_ids
 #print axioms Properties.C03.C03_refresh_same_behaviour
 #print axioms Properties.C03.C03_edges_from_tasks
+#print axioms Properties.C03.C03_like_fresh_manager
